@@ -9,7 +9,7 @@ import ast
 
 from ..astq import comes_before, arg, ext_names, handler_catches_all, handler_classes, inside, is_name, loc, lock_withs, names_in, stmt_of, in_body
 from ..cfg import CFG, any_call_may_raise
-from ..model import AnalysisError, head, norm
+from ..model import AnalysisError, Func, head, norm
 from . import roles
 
 TOTAL_CALLS = {"str", "repr", "len", "id", "hash", "int", "float", "bool"}
@@ -89,6 +89,8 @@ def check(ctx):
     ctx.rule("C20.R2", "update thread: after the done-wait returns true the render step still runs before the loop exits; the render step clears the stale flag under the lock")
     ctx.rule("C20.R3", "__exit__ sets the done event, then joins the update thread")
     ctx.rule("C20.R4", "each notification method takes the lock, sets the stale flag and forwards (section, scope[, amount]) to the same-named state method")
+    ctx.rule("C20.R7", "the counting state evaluated with a scripted clock on every legal notification sequence of up to four events over two scopes (elapsed-time attribution interleaved anywhere, up to three calls running): counts equal the events, nothing negative, the scopes' elapsed times add up to the time during which at least one call was running")
+    ctx.run(rule_state_accounting, "C20.R7")
     ctx.rule("C20.R5", "state transitions agree: completed/failed are equal modulo the counter; elapsed update first; running counts move together; running-set membership iff running > 0")
     ctx.trust("sorted raises TypeError iff some key comparison does; tuples compare lexicographically; str/int/float/bool/bytes are totally ordered within their type")
     # ---------------------------------------------------------------- R1
@@ -509,3 +511,134 @@ def rule_widget_max_before_value(ctx, rid):
                 ctx.ob(rid, f"{f.short}/helper-order", False, f"{cls.module.relpath}:{c.lineno}",
                        "a helper assigns `value` before `max` (keyword order): the widget clamps value to the old max", norm(c)[:80])
     ctx.floor(rid, "progress-bar value assignments", n, 1)
+
+
+
+# ------------------------------------------------------------------------------------------------ C20.R7
+def _legal_sequences(max_len):
+    """Notification sequences after totals for scopes a (3) and b (2) were announced: run / done / fail per scope and `tick` (the
+    update thread attributing elapsed time), legal in the sense of C15 (a call ends only while one of its scope is running)."""
+    out = []
+
+    def rec(seq, ra, rb):
+        out.append(tuple(seq))
+        if len(seq) >= max_len:
+            return
+        for ev in ("run a", "run b", "done a", "done b", "fail a", "fail b", "tick"):
+            k, _, sc = ev.partition(" ")
+            if k in ("done", "fail") and (ra if sc == "a" else rb) == 0:
+                continue
+            if k == "run" and (ra + rb) >= 3:
+                continue
+            d = 1 if k == "run" else -1 if k in ("done", "fail") else 0
+            rec(seq + [ev], ra + (d if sc == "a" else 0), rb + (d if sc == "b" else 0))
+    rec([], 0, 0)
+    return out
+
+
+def rule_state_accounting(ctx, rid):
+    """The counting state of the bundled displays, evaluated with a scripted clock on every legal notification sequence of up to four
+    events over two scopes (plus longer hand-picked ones with three calls running), with the update thread's elapsed-time attribution
+    interleaved anywhere: afterwards the per-scope counts are the counts of the events, nothing is negative, a scope that never ran
+    has no time attributed, and the times attributed to the scopes add up to the time during which at least one call was running."""
+    from ..absval import AbsRaise, Interp, Obj
+    m = ctx.model
+    stc = roles.progress_state(m)
+    init = stc.lookup("__init__")
+    names = {k: stc.methods.get(k) for k in ("increment_total", "increment_running", "increment_completed", "increment_failed")}
+    if not all(names.values()):
+        raise AnalysisError("State: notification methods missing")
+    tickers = [f_ for f_ in stc.methods.values() if f_.name != "__init__" and len(f_.pos_params) == 1 and
+               any(ext_names(m, f_, c_) & {"time.time", "time.monotonic", "time.perf_counter"} for c_ in f_.own_calls())]
+    if len(tickers) != 1:
+        raise AnalysisError("State: the method that attributes elapsed time (the one reading the clock) not found")
+    seqs = _legal_sequences(4)
+    seqs += [("run a", "run a", "run b", "tick", "done a", "tick", "fail b", "done a"), ("run b", "tick", "run a", "run a", "done b", "tick", "fail a", "tick", "done a"),
+             ("run a", "done a", "tick", "tick", "run b", "run b", "tick", "done b", "fail b"), ("run a", "run b", "run b", "fail a", "done b", "tick", "done b", "tick")]
+    STEP = 12  # the clock advances by 12 before every event: divisible by every running count that can occur (1..3)
+    bad, n = [], 0
+    for seq in seqs:
+        clock = [0]
+        interp = Interp(m, ext={"time.time": lambda: clock[0], "time.monotonic": lambda: clock[0], "time.perf_counter": lambda: clock[0]})
+        try:
+            args = [0] if isinstance(init, Func) and len(init.pos_params) > 1 else []
+            st = interp.call(interp.class_val(stc), args, {})
+
+            def call(name, *a):
+                f_ = names.get(name) or tickers[0]
+                return interp.call_func(f_, None, list(a), {}, bound_self=st)
+            scopes = {"a": ("x", 1), "b": ("y",)}
+            call("increment_total", "run", scopes["a"], 3)
+            call("increment_total", "run", scopes["b"], 2)
+            call("increment_total", "stale", scopes["a"], 1)
+            want = {"a": dict(total=3, running=0, completed=0, failed=0), "b": dict(total=2, running=0, completed=0, failed=0)}
+            busy = 0
+            ever = set()
+            for ev in seq:
+                clock[0] += STEP
+                if want["a"]["running"] + want["b"]["running"] > 0:
+                    busy += STEP
+                k, _, sc = ev.partition(" ")
+                if k == "tick":
+                    call("tick")
+                    continue
+                call({"run": "increment_running", "done": "increment_completed", "fail": "increment_failed"}[k], "run", scopes[sc])
+                if k == "run":
+                    want[sc]["running"] += 1
+                    ever.add(sc)
+                else:
+                    want[sc]["running"] -= 1
+                    want[sc]["completed" if k == "done" else "failed"] += 1
+            clock[0] += STEP
+            if want["a"]["running"] + want["b"]["running"] > 0:
+                busy += STEP
+            call("tick")
+        except AbsRaise as e:
+            bad.append(f"{list(seq)}: raises {e.value!r}")
+            continue
+        n += 1
+        # the per-scope records: objects of a class of the progress package reachable from the state
+        recs = {}
+        seen, stack = set(), [st]
+        while stack:
+            v = stack.pop()
+            if id(v) in seen:
+                continue
+            seen.add(id(v))
+            if isinstance(v, Obj):
+                stack.extend(v.attrs.values())
+            elif isinstance(v, dict):
+                for k_, x_ in v.items():
+                    if isinstance(x_, Obj) and x_ is not st and k_ in scopes.values():
+                        recs.setdefault(k_, []).append(x_)
+                    stack.append(x_)
+            elif isinstance(v, (list, tuple, set, frozenset)):
+                stack.extend(v)
+        why = None
+        total_elapsed = 0
+        for sc, key in scopes.items():
+            rs = [r_ for r_ in recs.get(key, []) if r_.attrs.get("total") == want[sc]["total"]]
+            if len(rs) != 1:
+                raise AnalysisError("State: the per-scope record of section 'run' was not found in the evaluated state")
+            r_ = rs[0]
+            for fld, w_ in want[sc].items():
+                if r_.attrs.get(fld) != w_:
+                    why = why or f"scope {sc}: {fld} is {r_.attrs.get(fld)!r}, the events say {w_}"
+            el = r_.attrs.get("weighted_elapsed")
+            if not isinstance(el, (int, float)):
+                raise AnalysisError("State: the per-scope record has no numeric weighted_elapsed")
+            if el < 0:
+                why = why or f"scope {sc}: negative elapsed time {el}"
+            if sc not in ever and el != 0:
+                why = why or f"scope {sc} never ran but has {el} time units attributed"
+            total_elapsed += el
+        if why is None and total_elapsed != busy:
+            why = f"the scopes' elapsed times add up to {total_elapsed}, but at least one call was running for {busy} time units"
+        if why:
+            bad.append(f"{list(seq)}: {why}")
+    ok = not bad
+    ctx.ob(rid, f"{stc.name}/accounting-evaluated", ok, loc(stc.methods["increment_running"]),
+           f"evaluated on {n} notification sequences with a scripted clock: counts equal the events, elapsed times are non-negative and add up to the busy time" if ok
+           else "; ".join(bad[:2]) + (f" (+{len(bad) - 2} more)" if len(bad) > 2 else ""))
+    ctx.floor(rid, "notification sequences the state was evaluated on", n, 300)
+    ctx.notes["state_sequences_evaluated"] = n
